@@ -44,7 +44,10 @@ def payload_texts(ctx):
     return base
 
 
-def run_case(ctx, mods, label, obj, text, overwrite):
+RAW_PAYLOADS = ["0", "1", "123", "None", "pass", "'cpu'", "'storage'", "''", "'weight'", "'0'", "...", "0x1f", "-7"]
+
+
+def run_case(ctx, mods, label, obj, text, overwrite, raw=False):
     torch, f, PyTorchModelWrapper = mods
     import vp_sink
     agg = ctx.agg
@@ -56,7 +59,7 @@ def run_case(ctx, mods, label, obj, text, overwrite):
     torch.save(obj, src)
     with open(src, "rb") as fh:
         src_bytes = fh.read()
-    payload = f"__import__('vp_sink').hit('C16', {text!r})"
+    payload = text if raw else f"__import__('vp_sink').hit('C16', {text!r})"
     key = h(hashlib.sha256(src_bytes).hexdigest() + "|" + payload + "|" + str(overwrite))
     ntens = len(torchfiles.storage_partition(torch, obj))
     if not agg.case(key, ntens > 0, {"model": label, "payload": payload[:80], "overwrite": overwrite, "tensors": ntens}):
@@ -152,7 +155,7 @@ def run_case(ctx, mods, label, obj, text, overwrite):
     log = list(vp_sink.LOG)
     del vp_sink.LOG[:]
     agg.count("loads_compared")
-    want = [("hit", ("C16", text), {})]
+    want = [] if raw else [("hit", ("C16", text), {})]
     if log != want:
         agg.violation("payload-run-count", f"sink log {log!r}, expected exactly {want!r}"[:300], w)
         return
@@ -188,6 +191,15 @@ def run_shard(ctx):
                     continue
                 if i % ctx.nshards == ctx.shard:
                     run_case(ctx, mods, label, obj, text, overwrite)
+    # raw payload strings (they may coincide with strings the model pickle already contains: storage keys
+    # '0', '1', ..., 'cpu', dict keys); observed through data.pkl == original + call and a successful load
+    for label, obj in list(torchfiles.models(torch, asm.rng_for(ctx.seed, "c16raw"), 0)):
+        for ri, text in enumerate(RAW_PAYLOADS):
+            i += 1
+            if ctx.tier == "quick" and (ri + len(label)) % 3:
+                continue
+            if i % ctx.nshards == ctx.shard:
+                run_case(ctx, mods, label, obj, text, bool(i % 2), raw=True)
     for p in ("c16_model.pt", "c16_injected.pt"):
         pp = os.path.join(ctx.scratch, p)
         if os.path.exists(pp):
